@@ -391,6 +391,28 @@ KERNELS = [
     ('WhenAll_front', None, ['yaclib/async/when_all.hpp'], 'yaclib::WhenAll', 'async/when_all.hpp', 'WhenAll', 'template'),
     ('WhenAny_front', None, ['yaclib/async/when_any.hpp'], 'yaclib::WhenAny', 'async/when_any.hpp', 'WhenAny', 'template'),
     ('Join_front', None, ['yaclib/async/join.hpp'], 'yaclib::Join', 'async/join.hpp', 'Join', 'template'),
+    # whole-declaration source ties for what has no function body (policy constants, callback tuples / node lookup, alias
+    # selection of the combinator type, member initialisers such as `_state{2 * count}`, index metafunctions)
+    ('WhenSrc_when_hpp', 'include/yaclib/async/when/when.hpp', None, None, None, None, 'text'),
+    ('WhenSrc_all_hpp', 'include/yaclib/async/when/all.hpp', None, None, None, None, 'text'),
+    ('WhenSrc_all_tuple_hpp', 'include/yaclib/async/when/all_tuple.hpp', None, None, None, None, 'text'),
+    ('WhenSrc_join_hpp', 'include/yaclib/async/when/join.hpp', None, None, None, None, 'text'),
+    ('WhenSrc_any_hpp', 'include/yaclib/async/when/any.hpp', None, None, None, None, 'text'),
+    ('WhenSrc_when_all_hpp', 'include/yaclib/async/when_all.hpp', None, None, None, None, 'text'),
+    ('WhenSrc_when_any_hpp', 'include/yaclib/async/when_any.hpp', None, None, None, None, 'text'),
+    ('WhenSrc_async_join_hpp', 'include/yaclib/async/join.hpp', None, None, None, None, 'text'),
+    ('WhenSrc_combinator_strategy_hpp', 'include/yaclib/util/combinator_strategy.hpp', None, None, None, None, 'text'),
+    ('WhenSrc_fail_policy_hpp', 'include/yaclib/util/fail_policy.hpp', None, None, None, None, 'text'),
+    ('WhenSrc_type_traits_inputs', 'include/yaclib/util/type_traits.hpp', None, None, None,
+     (r'template <typename T>\s*inline constexpr bool is_future_base_v', r'is_combinator_input_v = [^;]*;'), 'text'),
+    ('WhenSrc_type_traits_tuples', 'include/yaclib/util/type_traits.hpp', None, None, None,
+     (r'template <typename T, typename\.\.\. List>\s*inline constexpr auto kCount', r'index_of_v = [^;]*;'), 'text'),
+    ('When_StaticCombinator_GetCallbackHelper', None, ['yaclib/async/when_all.hpp'], 'yaclib::when::StaticCombinator', 'when/when.hpp', 'GetCallbackHelper', 0),
+    ('When_StaticCombinator_InitImpl', None, ['yaclib/async/when_all.hpp'], 'yaclib::when::StaticCombinator', 'when/when.hpp', 'InitImpl', 0),
+    ('When_CombinatorCallback_Here', None, ['yaclib/async/when_all.hpp'], 'yaclib::when::CombinatorCallback', 'when/when.hpp', 'Here', 0),
+    ('When_SingleCombinator_Here', None, ['yaclib/async/when_all.hpp'], 'yaclib::when::SingleCombinator', 'when/when.hpp', 'Here', 0),
+    ('TypeTraits_TranslateIndexImpl_Index', None, ['yaclib/util/type_traits.hpp'], 'yaclib::TranslateIndexImpl', 'util/type_traits.hpp', 'Index', 'template'),
+    ('TypeTraits_IndexOf_Index', None, ['yaclib/util/type_traits.hpp'], 'yaclib::IndexOf', 'util/type_traits.hpp', 'Index', 'template'),
     # ---- coroutines: promise type and awaiters (C13)  (AwaitAwaiterBase_await_ready, AtomicCounter_SubEqual, BaseCore_* are above)
     ('Destroy_await_suspend', None, ['yaclib/coro/future.hpp'], 'yaclib::detail::Destroy', 'promise_type.hpp', 'await_suspend', 'template'),
     ('PromiseType_initial_suspend', None, ['yaclib/coro/future.hpp'], 'yaclib::detail::PromiseType', 'promise_type.hpp', 'initial_suspend', 0),
@@ -425,6 +447,29 @@ KERNELS = [
     ('SetCallbacksDynamic', None, ['yaclib/coro/await.hpp'], 'yaclib::detail::SetCallbacksDynamic', 'shared_event.hpp', 'SetCallbacksDynamic', 'template'),
     ('EventHelperCallback_Here', None, ['yaclib/coro/await.hpp'], 'yaclib::detail::EventHelperCallback', 'shared_event.hpp', 'Here', 0),
 ]
+
+
+def _source_text(repo, rel, region):
+    """Normalised source text (comments dropped, white space collapsed) of a file, or of the region between the first
+    match of region[0] and the first following match of region[1] (both included).  For what has no function body: class
+    level constants, alias templates, metafunctions, member initialisers."""
+    import re
+    path = os.path.join(repo, rel)
+    try:
+        txt = open(path).read()
+    except OSError as e:
+        raise A.ExtractError('cannot read %s: %s' % (rel, e))
+    txt = re.sub(r'/\*.*?\*/', ' ', txt, flags=re.S)
+    txt = re.sub(r'//[^\n]*', ' ', txt)
+    if region is not None:
+        m = re.search(region[0], txt)
+        if not m:
+            raise A.ExtractError('%s: start of region %r not found' % (rel, region[0]))
+        e = re.compile(region[1]).search(txt, m.end())
+        if not e:
+            raise A.ExtractError('%s: end of region %r not found' % (rel, region[1]))
+        txt = txt[m.start():e.end()]
+    return ' '.join(txt.split())
 
 
 def _collect(docs, suffix, name):
@@ -487,6 +532,8 @@ def generate(repo, cfg_include, workdir, kernels=KERNELS):
             return key, None
     keys = []
     for (kid, tu, includes, flt, suffix, name, sel) in kernels:
+        if sel == 'text':
+            continue
         key = (tu, tuple(includes or ()), flt)
         if key not in keys:
             keys.append(key)
@@ -495,6 +542,15 @@ def generate(repo, cfg_include, workdir, kernels=KERNELS):
             if docs is not None:
                 cache[key] = docs
     for (kid, tu, includes, flt, suffix, name, sel) in kernels:
+        if sel == 'text':
+            # (id, file relative to /repo, None, None, None, None | (start regex, end regex), 'text')
+            try:
+                sk = _source_text(repo, tu, name)
+            except A.ExtractError as e:
+                problems.append('%s: %s' % (kid, e))
+                sk = 'EXTRACTION FAILED: ' + str(e).split('\n')[0][:200]
+            defs.append((kid, sk))
+            continue
         key = (tu, tuple(includes or ()), flt)
         try:
             if key not in cache:
